@@ -107,11 +107,39 @@ def patch_variants(pid):
                                 what=json.load(open(mp)).get("what", ""), allow_error=False))
     bd = os.path.join(base, "benign")
     if os.path.isdir(bd):
+        # the refactorings made for this property, and every other stored refactoring that touches a file one of this
+        # property's own changes (seeds, refactorings, combos) touches; tools/run_benign.py runs all of them against all checks
+        own_files = set()
+        for v in out:
+            own_files |= _files_of(v["patch"])
         for d in sorted(os.listdir(bd)):
             pp = os.path.join(bd, d, "patch.diff")
-            if os.path.exists(pp):
+            if os.path.exists(pp) and d.startswith(pid + "-"):
+                own_files |= _files_of(pp)
+        for d in sorted(os.listdir(bd)):
+            pp = os.path.join(bd, d, "patch.diff")
+            if os.path.exists(pp) and (d.startswith(pid + "-") or (_files_of(pp) & own_files)):
                 out.append(dict(kind="benign", prop=pid, id="%s/refactoring/%s" % (pid, d), patch=pp, what=""))
     return out
+
+
+_FILES = {}
+
+
+def _files_of(patch):
+    if patch not in _FILES:
+        fs = set()
+        try:
+            with open(patch, encoding="utf-8", errors="replace") as fh:
+                for line in fh:
+                    if line.startswith("+++ "):
+                        f = line[4:].strip().split("\t")[0]
+                        f = f.split("py34/", 1)[1] if "py34/" in f else f
+                        fs.add(f)
+        except OSError:
+            pass
+        _FILES[patch] = fs
+    return _FILES[patch]
 
 
 def _run_variant(args):
